@@ -152,6 +152,19 @@ def run_case(desc):
         ref = reference(preset, nums)
         if not _same(r, ref):
             out.fail("preset-table", "get_radii(%r) for Z=%d gives %r, documented table gives %r" % (preset, Z, np.asarray(r)[0], ref[0]), key="preset-table:%s:%d" % (preset, Z))
+        # the caller owns what it gets: scaling the returned array in place (a common way to build custom radii) must not change
+        # what the preset resolves to afterwards
+        try:
+            rr = np.asarray(r)
+            if rr.flags.writeable:
+                rr *= 1.25
+        except Exception:
+            pass
+        ok2, r2 = call(mg.get_radii, preset, nums)
+        if ok2 and not _same(r2, ref):
+            out.fail("preset-table-after-caller-edit", "get_radii(%r) for Z=%d gives %r after the caller scaled the previously returned array in place; documented table gives %r"
+                     % (preset, Z, np.asarray(r2)[0], ref[0]), key="preset-table-after-caller-edit:%s" % preset)
+        r = r2 if ok2 else r
         if preset == "vdw_covalent":
             v = float(np.asarray(r)[0])
             if not (np.isfinite(v) and v > 0):
